@@ -100,18 +100,31 @@ def normSat (s : Str) : Str :=
   | [a, b, c] => [if a = ' ' then 'G' else a, if b = ' ' then '0' else b, c]
   | _ => s
 
+/-- an F14.3 value: three decimals, i.e. the decimal point is the fourth character from the right -/
+def dot3 (v : Str) : Bool := decide (4 ≤ v.length) && v[v.length - 4]? == some '.'
+
+/-- a printed observation: a value with three decimals, or nothing at all (no flags without a value) -/
+def obsShape (o : Obs) : Bool :=
+  if o.value.text.isEmpty then o.lli.text.isEmpty && o.ssi.text.isEmpty else dot3 o.value.text
+
 def SatRec.wf (n : Nat) (r : SatRec) : Bool :=
   (match r.sat with
    | [c, d1, d2] => (c.isAlpha || c == ' ') && (isDigit d1 || d1 == ' ') && isDigit d2
    | _ => false) &&
-  decide (r.obs.length = n) && r.obs.all Midgard.Spec.Rinex3ObsFile.Obs.wf
+  decide (r.obs.length = n) && r.obs.all Midgard.Spec.Rinex3ObsFile.Obs.wf && r.obs.all obsShape
 
 def Epoch.wf (n : Nat) (e : Epoch) : Bool :=
   e.yy.wf 2 && e.month.wf 2 && e.day.wf 2 && e.hour.wf 2 && e.minute.wf 2 && e.second.wf 11 &&
-  e.flag.wf 1 && numText e.numSat && decide (e.numSat.length ≤ 3) && e.clk.wf 12 &&
+  e.flag.wf 1 && !e.numSat.isEmpty && allDigits e.numSat && decide (e.numSat.length ≤ 3) && e.clk.wf 12 &&
   e.sats.all (SatRec.wf n)
 
+/-- the satellites of the file all carry a system letter, or none does (a GPS-only file with blank identifiers) -/
+def sysStyleOk (F : File) : Bool :=
+  F.epochs.all (fun e => e.sats.all fun r => (r.sat.head?.map Char.isAlpha).getD false) ||
+  F.epochs.all (fun e => e.sats.all fun r => r.sat.head? == some ' ')
+
 def File.wf (F : File) : Bool :=
+  sysStyleOk F &&
   F.hdr.all (fun kc => kinds.any (·.1 == kc.1) && okCells kc.1 kc.2) &&
   !(types F.hdr).isEmpty && nodup (types F.hdr) &&
   F.hdr.any (·.1 == "MNAME") && F.hdr.any (·.1 == "TFIRST") &&
